@@ -188,8 +188,136 @@ func muHeldFacts(repo string, w *bytes.Buffer) error {
 	if nDeliver == 0 {
 		return fmt.Errorf("no call of (*server).deliverMessage found")
 	}
+	// the take-over check of lockDuplicatedID (property C05, Model/Takeover.lean: "is there a session / an online client with this
+	// id?" and the registration that follows are ONE critical section): the reads `sessionStore.Get(…)` and `srv.clients[…]`
+	// must come after `mu.Lock()` with no `mu.Unlock()` in between (1), not before it (0)
+	var tk []string
+	for _, fname := range names {
+		for _, d := range pkg.Files[fname].Decls {
+			fd, ok := d.(*ast.FuncDecl)
+			if !ok || fd.Body == nil || fd.Name.Name != "lockDuplicatedID" {
+				continue
+			}
+			tk = mustHeldAtReads(fd.Body)
+		}
+	}
+	if len(tk) == 0 {
+		return fmt.Errorf("lockDuplicatedID: no read of sessionStore / srv.clients found")
+	}
+	fmt.Fprintf(w, "/-- `lockDuplicatedID`: for every read of `sessionStore.Get(…)` / `srv.clients[…]`, in source order: 1 = after `mu.Lock()` with no `mu.Unlock()` in between, 0 = outside the lock -/\ndef takeoverCheckCodes : List Nat :=\n  [%s]\n\n", strings.Join(tk, ", "))
 	defStrings(w, "call sites `callee <- enclosing function (file:line)` of deliverMessage and of the …Locked helpers in package server, source order", "muCallSites", ss)
 	fmt.Fprintf(w, "/-- for every call site (same order): 2 = inside a …Locked function, 1 = after `mu.Lock()` with no `mu.Unlock()` in between, 3 = after lockDuplicatedID (returns holding mu), 4 = inside deliverMessage's handler, 0 = no lock seen -/\ndef muCallSiteCodes : List Nat :=\n  [%s]\n\n", strings.Join(cs, ", "))
 	fmt.Fprintf(w, "/-- number of those sites that call `deliverMessage` -/\ndef muDeliverSites : Nat := %d\n\n", nDeliver)
 	return nil
+}
+
+
+// mustHeldAtReads walks a function body keeping "is <x>.mu held on EVERY path that reaches this point" (branches that end in
+// return / continue / break do not flow on; after a loop the state is what every `break` carried) and reports it, in source
+// order, for every read of `….sessionStore.Get(…)` and `….clients[…]`: "1" held, "0" not (or not on every path).
+func mustHeldAtReads(body *ast.BlockStmt) []string {
+	type read struct {
+		pos  token.Pos
+		held bool
+	}
+	var reads []read
+	scanExpr := func(n ast.Node, held bool) {
+		if n == nil {
+			return
+		}
+		ast.Inspect(n, func(x ast.Node) bool {
+			switch v := x.(type) {
+			case *ast.FuncLit:
+				return false
+			case *ast.CallExpr:
+				if strings.HasSuffix(selPath(v.Fun), ".sessionStore.Get") {
+					reads = append(reads, read{v.Pos(), held})
+				}
+			case *ast.IndexExpr:
+				if strings.HasSuffix(selPath(v.X), ".clients") {
+					reads = append(reads, read{v.Pos(), held})
+				}
+			}
+			return true
+		})
+	}
+	var walk func(stmts []ast.Stmt, held bool, breaks *[]bool) (bool, bool) // (held after, falls through)
+	walk = func(stmts []ast.Stmt, held bool, breaks *[]bool) (bool, bool) {
+		for _, st := range stmts {
+			switch v := st.(type) {
+			case *ast.ExprStmt:
+				if c, ok := v.X.(*ast.CallExpr); ok {
+					switch p := selPath(c.Fun); {
+					case strings.HasSuffix(p, ".mu.Lock"):
+						held = true
+						continue
+					case strings.HasSuffix(p, ".mu.Unlock"):
+						held = false
+						continue
+					}
+				}
+				scanExpr(v, held)
+			case *ast.ReturnStmt:
+				scanExpr(v, held)
+				return held, false
+			case *ast.BranchStmt:
+				if v.Tok == token.BREAK && breaks != nil {
+					*breaks = append(*breaks, held)
+				}
+				return held, false
+			case *ast.BlockStmt:
+				h, ft := walk(v.List, held, breaks)
+				if !ft {
+					return h, false
+				}
+				held = h
+			case *ast.IfStmt:
+				scanExpr(v.Init, held)
+				scanExpr(v.Cond, held)
+				h1, f1 := walk(v.Body.List, held, breaks)
+				h2, f2 := held, true
+				if v.Else != nil {
+					h2, f2 = walk([]ast.Stmt{v.Else}, held, breaks)
+				}
+				switch {
+				case f1 && f2:
+					held = h1 && h2
+				case f1:
+					held = h1
+				case f2:
+					held = h2
+				default:
+					return held, false
+				}
+			case *ast.ForStmt:
+				scanExpr(v.Init, held)
+				scanExpr(v.Cond, held)
+				var bs []bool
+				walk(v.Body.List, held, &bs)
+				if v.Cond == nil { // `for { … }`: left through `break` only
+					if len(bs) == 0 {
+						return held, false
+					}
+					held = true
+					for _, b := range bs {
+						held = held && b
+					}
+				}
+			default:
+				scanExpr(st, held)
+			}
+		}
+		return held, true
+	}
+	walk(body.List, false, nil)
+	sort.Slice(reads, func(i, j int) bool { return reads[i].pos < reads[j].pos })
+	var res []string
+	for _, r := range reads {
+		if r.held {
+			res = append(res, "1")
+		} else {
+			res = append(res, "0")
+		}
+	}
+	return res
 }
